@@ -318,7 +318,7 @@ func randomGapStyle(rng *vlib.RNG) gapStyle {
 
 var commentWords = []string{
 	"x", "TODO", "import \"x\";", "package p;", "é", "€", "😀", "\t", "  ", "*", "/", "/*", "//", "\\", "\"", "'",
-	"{", "}", "[", "<", ";", "\r", "0x1F", "syntax = \"proto3\";", "* /", " ", "﻿", "\x7f", "\x01", "\v", "\f", "**", "@param",
+	"{", "}", "[", "<", ";", "\r", "0x1F", "syntax = \"proto3\";", "* /", " ", "\ufeff", "\x7f", "\x01", "\v", "\f", "**", "@param",
 }
 
 func genWS(rng *vlib.RNG, exotic bool) string {
@@ -664,4 +664,162 @@ func clip(s string, n int) string {
 		return s
 	}
 	return s[:n] + fmt.Sprintf("…(+%d bytes)", len(s)-n)
+}
+
+// ---------------------------------------------------------------------------
+// Text workload shared by C11, C13 and C25.
+
+type textCase struct {
+	id   string
+	make func() []byte
+}
+
+var handTexts = []string{
+	"", " ", "\n", "\t", "\r\n", "\xef\xbb\xbf", "\xef\xbb\xbf\n", "// only a comment", "// only a comment\n", "/* block */", "/**/",
+	"\n\t// this file has no lexical elements, just this one comment\n\t", ";", ";;", "syntax = \"proto3\";", "syntax=\"proto2\";//x",
+	"syntax = \"proto3\"; // trailing\n// detached\n\n/* last */", "message A{}", "message A{}/*x*/", "message A{}//x", "message A{} //x\n//y",
+	"\xef\xbb\xbfsyntax = \"proto3\";\nmessage M { int32 a = 1; }\n", "package a;\f\vmessage\tM\r{\r\n}\r", "import \"a\" 'b';",
+	"message M { /* lead */ int32 a = 1; // trail\n /* x */ /* y */ int32 b = 2; /* trail block */\n\n // detached\n\n // lead c\n int32 c = 3; }",
+	"enum E { A = 0; /* t1 */ /* t2 */\n B = 1; }", "option (a) = { /* in */ b /* c */ : /* d */ 1 /* e */ } /* f */ ; /* g */",
+	"message M { optional string s = 1 [default = \"a\" /* mid */ \"b\" // eol\n 'c']; }",
+	"syntax = \"proto3\";\n\n\n", "syntax = \"proto3\";   ", "syntax = \"proto3\";\t//\t\ttabs\té\n", "message /*é€😀*/ M /*\t*/ { }",
+	"message M {}\n/* unterminated is rejected", "message M { int32 a = 1 [(x) = 1.5e3, (y) = -inf, (z) = 0x1F]; }",
+	"service S { rpc M (stream .a.B) returns (c.D) { option (o) = <a: 1, b <c: [1, 2]>>; }; }",
+	"//a\n//b\n\n//c\nsyntax = \"proto2\";//d\n//e\n\n//f\npackage p;", "/*a*//*b*/message/*c*/M/*d*/{/*e*/}/*f*/",
+	"edition = \"2023\"; message M { reserved a, b; }", "message M { reserved \"a\", 'b'; extensions 1 to max; }",
+	"message M { map<string, .x.Y> m = 1; oneof o { int32 a = 2; } optional group G = 3 { } }",
+	"extend Foo { optional int32 x = 100; }", "import public \"a.proto\"; import weak 'b.proto'; package x.y;",
+}
+
+// textCases enumerates the workload: a pure function of (seed, tier).
+func textCases(r *vlib.Run, prop string, nRetrivia, nGen, nMut int) []textCase {
+	corpus := loadCorpus()
+	var cs []textCase
+	for _, c := range corpus {
+		c := c
+		cs = append(cs, textCase{"corpus/" + c.Name, func() []byte { return c.Text }})
+	}
+	for i, h := range handTexts {
+		h := h
+		cs = append(cs, textCase{fmt.Sprintf("hand/%d", i), func() []byte { return []byte(h) }})
+	}
+	for _, e := range extraTexts(r, prop) {
+		e := e
+		cs = append(cs, textCase{e.Name, func() []byte { return e.Text }})
+	}
+	for i := 0; i < nRetrivia && len(corpus) > 0; i++ {
+		id := fmt.Sprintf("retrivia/%d", i)
+		cs = append(cs, textCase{id, func() []byte {
+			rng := r.Rng(prop + "/" + id)
+			src := corpus[rng.Intn(len(corpus))]
+			toks, ok := tokenize(src.Text)
+			if !ok {
+				return src.Text
+			}
+			if rng.Chance(0.3) {
+				toks = respellStrings(rng, toks)
+			}
+			return renderTokens(rng, toks, randomGapStyle(rng))
+		}})
+	}
+	for i := 0; i < nGen; i++ {
+		id := fmt.Sprintf("gen/%d", i)
+		cs = append(cs, textCase{id, func() []byte {
+			rng := r.Rng(prop + "/" + id)
+			g := genProtoFile(rng)
+			return renderTokens(rng, g.toks, randomGapStyle(rng))
+		}})
+	}
+	for i := 0; i < nMut; i++ {
+		id := fmt.Sprintf("mut/%d", i)
+		cs = append(cs, textCase{id, func() []byte {
+			rng := r.Rng(prop + "/" + id)
+			var base []byte
+			if rng.Bool() && len(corpus) > 0 {
+				base = corpus[rng.Intn(len(corpus))].Text
+				if len(base) > 4000 {
+					o := rng.Intn(len(base) - 4000)
+					base = base[o : o+4000]
+				}
+			} else {
+				g := genProtoFile(rng)
+				base = renderTokens(rng, g.toks, randomGapStyle(rng))
+			}
+			return mutateBytes(rng, base, 1+rng.Intn(3))
+		}})
+	}
+	return cs
+}
+
+// respellStrings re-spells some plain string literal tokens (different quote,
+// escapes, split into adjacent literals) without changing their value.
+func respellStrings(rng *vlib.RNG, toks []tok) []tok {
+	out := make([]tok, 0, len(toks))
+	for _, t := range toks {
+		if t.kind != 's' || len(t.text) < 2 || strings.ContainsAny(t.text[1:len(t.text)-1], "\\") || !rng.Chance(0.5) {
+			out = append(out, t)
+			continue
+		}
+		content := t.text[1 : len(t.text)-1]
+		if !utf8.ValidString(content) {
+			out = append(out, t)
+			continue
+		}
+		lits, ok := tokenize([]byte(spellBytes(rng, []byte(content), vlib.Pick(rng, []int{0, 1, 2}), false)))
+		if !ok || len(lits) == 0 {
+			out = append(out, t)
+			continue
+		}
+		out = append(out, lits...)
+	}
+	return out
+}
+
+var mutFragments = []string{
+	"\"", "'", "/*", "*/", "//", "\n", "\t", "\r", "\f", "\v", " ", ";", "{", "}", "[", "]", "<", ">", "(", ")", "=", ",", ".", "-", "+", ":",
+	"\\", "0", "0x", "1e", ".5", "é", "€", "😀", "\x00", "\x7f", "\xff", "\xc3", "\xef\xbb\xbf", "message", "option", "import ", "syntax", "group",
+	"stream", "max", "to", "inf", "-", "\\x", "\\u12", "\\777", "\\0", "08", "1.2.3", "0x1G", "_", "@", "#", "$", "`", "~", "!", "%", "^", "&", "*", "|", "?",
+}
+
+func mutateBytes(rng *vlib.RNG, b []byte, n int) []byte {
+	out := append([]byte(nil), b...)
+	for k := 0; k < n; k++ {
+		pos := 0
+		if len(out) > 0 {
+			pos = rng.Intn(len(out) + 1)
+		}
+		switch rng.Intn(7) {
+		case 0: // flip a byte
+			if pos < len(out) {
+				out[pos] ^= byte(1 << rng.Intn(8))
+			}
+		case 1: // delete a run
+			if pos < len(out) {
+				e := pos + 1 + rng.Intn(4)
+				if e > len(out) {
+					e = len(out)
+				}
+				out = append(out[:pos], out[e:]...)
+			}
+		case 2: // random byte
+			if pos < len(out) {
+				out[pos] = byte(rng.Intn(256))
+			}
+		case 3, 4: // insert a fragment
+			f := vlib.Pick(rng, mutFragments)
+			out = append(out[:pos], append([]byte(f), out[pos:]...)...)
+		case 5: // duplicate a run
+			if pos < len(out) {
+				e := pos + 1 + rng.Intn(12)
+				if e > len(out) {
+					e = len(out)
+				}
+				run := append([]byte(nil), out[pos:e]...)
+				out = append(out[:pos], append(run, out[pos:]...)...)
+			}
+		default: // truncate
+			out = out[:pos]
+		}
+	}
+	return out
 }
